@@ -104,6 +104,9 @@ class Session:
         sent_now = []
 
         entries_by_msg = {}
+        if self.plan.get('send_queue_size'):
+            nthread._send_queue.maxsize = self.plan['send_queue_size']
+            self.ctx.probe('small_send_queue')
         orig_put = nthread._send_queue.put
 
         def put(item, *a, **kw):
